@@ -194,7 +194,7 @@ def run_wb(sc):
     rnd = random.Random(sc["seed"] * 31 + 5)
     events = []
     log = []
-    state = dict(cycle=0, dead=False)
+    state = dict(cycle=0, dead=False, active=0)
 
     def junk():
         # signals qualified by STB are don't-care while STB is low: drive noise
@@ -271,11 +271,20 @@ def run_wb(sc):
         yield wb.cyc.eq(0)
         yield wb.stb.eq(0)
         yield wb.we.eq(0)
-        for _ in range(sc.get("drain", 80)):
-            yield
+        yield from drain()
+
+    def drain():
+        # let posted / buffered writes reach the backing memory: quiescent = no native-port activity for 60 cycles
         n = 0
-        while mem.outstanding and n < 200:
+        while n < 6000 and (mem.outstanding or state["cycle"] - state["active"] < max(60, sc.get("drain", 0))):
             n += 1
+            yield
+
+    @passive
+    def activity():
+        while True:
+            if (yield port.cmd.valid) or (yield port.wdata.valid) or (yield port.wdata.ready) or (yield port.rdata.valid):
+                state["active"] = state["cycle"]
             yield
 
     @passive
@@ -316,7 +325,7 @@ def run_wb(sc):
             lock.append(dict(i=i, o=o))
             yield
 
-    gens = [master(), recorder(), passive(mem.process)()]
+    gens = [master(), recorder(), activity(), passive(mem.process)()]
     if sc.get("lockstep"):
         assert sc["wbw"] == 8 and sc["base"] == 0
         gens.append(lockrec())
@@ -425,7 +434,7 @@ def run_avl(sc):
     rnd = random.Random(sc["seed"] * 31 + 7)
     events = []
     log = []
-    state = dict(cycle=0, dead=False, want=0, got=0, waited=0)
+    state = dict(cycle=0, dead=False, want=0, got=0, waited=0, active=0)
     noise = sc.get("noise", True)
 
     def junk():
@@ -512,11 +521,19 @@ def run_avl(sc):
             pass
         yield av.read.eq(0)
         yield av.write.eq(0)
-        for _ in range(sc.get("drain", 80)):
-            yield
+        yield from drain()
+
+    def drain():
         n = 0
-        while mem.outstanding and n < 200:
+        while n < 6000 and (mem.outstanding or state["cycle"] - state["active"] < max(60, sc.get("drain", 0))):
             n += 1
+            yield
+
+    @passive
+    def activity():
+        while True:
+            if (yield port.cmd.valid) or (yield port.wdata.valid) or (yield port.wdata.ready) or (yield port.rdata.valid):
+                state["active"] = state["cycle"]
             yield
 
     @passive
@@ -558,7 +575,7 @@ def run_avl(sc):
             lock.append(dict(i=i, o=o))
             yield
 
-    gens = [master(), recorder(), passive(mem.process)()]
+    gens = [master(), recorder(), activity(), passive(mem.process)()]
     if sc.get("lockstep"):
         assert sc["avw"] == 8 and sc["pw"] == 8 and sc["base"] == 0
         gens.append(lockrec())
